@@ -70,10 +70,33 @@ ArgVals(ev) == [k \in DOMAIN ev.args |-> env[ev.args[k]].v]
 UsedArgs(ev) == {ev.args[ev.prog.nodes[n].arg + 1] : n \in {m \in DOMAIN ev.prog.nodes : ev.prog.nodes[m].op = "arg"}}
 ArgDeps(ev) == UNION {{a} \cup env[a].deps : a \in UsedArgs(ev)}
 
+FaultNodes(p) == {n \in DOMAIN p.nodes : "fault" \in DOMAIN p.nodes[n]}
+NoBind == [bind |-> FALSE, v |-> 0, cm |-> 0, cf |-> 0, cok |-> FALSE]
+
+(* a run whose program contains an injected user-function fault that fired (C06) *)
+JudgeFaulty(r, ev) ==
+  LET p == ev.prog
+      n == CHOOSE x \in FaultNodes(p) : TRUE
+      f == p.nodes[n].fault
+      op == p.nodes[n].op
+      failed == ev.err # "" /\ ~ev.ctxerr
+      needMsg == f.mode = "panic" \/ (f.mode = "error" /\ op \in {"readerfunc", "writerfunc"})
+  IN IF Has(ev, "panic") THEN <<Fail(r, ev, "RunPanicked", ev.panic)>>
+     ELSE IF f.persist THEN
+          (IF failed THEN <<>>
+           ELSE IF ev.err = "" THEN <<Fail(r, ev, "UserFaultSurfacesAsError", op \o "/" \o f.mode)>>
+           ELSE <<Fail(r, ev, "FailsWithoutHangingOrUnboundedRetry", op \o "/" \o f.mode)>>)
+          \o (IF failed /\ needMsg /\ ~ev.hasmsg THEN <<Fail(r, ev, "ErrorCarriesUserMessage", op \o "/" \o f.mode)>> ELSE <<>>)
+     ELSE \* a one-shot temporary failure must not fail the run
+          (IF ev.err = "" THEN <<>> ELSE <<Fail(r, ev, "TransientFailureIsRetried", op \o "/" \o f.mode)>>)
+
 JudgeRun(r, ev) ==
-  IF Has(ev, "skipped") THEN [fails |-> <<>>, bind |-> FALSE, v |-> 0, cm |-> 0, cf |-> 0, cok |-> FALSE]
-  ELSE IF Has(ev, "panic") THEN [fails |-> <<Fail(r, ev, "RunPanicked", ev.panic)>>, bind |-> FALSE, v |-> 0, cm |-> 0, cf |-> 0, cok |-> FALSE]
-  ELSE IF ev.err # "" THEN [fails |-> <<Fail(r, ev, "FailureFreeRunSucceeds", ev.err)>>, bind |-> FALSE, v |-> 0, cm |-> 0, cf |-> 0, cok |-> FALSE]
+  IF Has(ev, "skipped") THEN [fails |-> <<>>] @@ NoBind
+  ELSE IF Has(ev, "fault_fired") /\ ev.fault_fired > 0 /\ FaultNodes(ev.prog) # {}
+          /\ (ev.err # "" \/ Has(ev, "panic") \/ (ev.prog.nodes[CHOOSE x \in FaultNodes(ev.prog) : TRUE].fault.persist))
+       THEN [fails |-> JudgeFaulty(r, ev)] @@ NoBind
+  ELSE IF Has(ev, "panic") THEN [fails |-> <<Fail(r, ev, "RunPanicked", ev.panic)>>] @@ NoBind
+  ELSE IF ev.err # "" THEN [fails |-> <<Fail(r, ev, "FailureFreeRunSucceeds", ev.err)>>] @@ NoBind
   ELSE
   LET p == ev.prog
       vals == nvals
@@ -121,6 +144,7 @@ JudgeScan(r, ev) ==
   ELSE <<Fail(r, ev, "ScanRowsAsFirstEvaluation", ev.res)>>
 
 Runnable(ev) == ev.do = "run" /\ ~Has(ev, "skipped") /\ ~Has(ev, "panic") /\ ev.err = ""
+                /\ ~(Has(ev, "fault_fired") /\ ev.fault_fired > 0 /\ FaultNodes(ev.prog) # {} /\ ev.prog.nodes[CHOOSE x \in FaultNodes(ev.prog) : TRUE].fault.persist)
 
 (* evaluate the next node of the program of the current run event *)
 EvalNode ==
@@ -149,7 +173,9 @@ Step ==
 
 End ==
   /\ s <= Len(Recs) /\ i = Len(Recs[s].events)
-  /\ bad' = IF Recs[s].hung THEN Append(bad, [id |-> Recs[s].id, exec |-> Recs[s].exec, seq |-> 0, do |-> "scenario",
+  /\ bad' = IF Has(Recs[s], "crashed") THEN Append(bad, [id |-> Recs[s].id, exec |-> Recs[s].exec, seq |-> 0, do |-> "scenario",
+                                             what |-> "DriverProcessSurvives", detail |-> Recs[s].crash])
+            ELSE IF Recs[s].hung THEN Append(bad, [id |-> Recs[s].id, exec |-> Recs[s].exec, seq |-> 0, do |-> "scenario",
                                              what |-> "NoRunBlocksForever", detail |-> ""]) ELSE bad
   /\ s' = s + 1 /\ i' = 0 /\ env' = <<>> /\ gone' = {} /\ nj' = 0 /\ nvals' = <<>>
 
